@@ -18,10 +18,10 @@ suite=$(go test -vet=off -count=1 ./... 2>&1 | grep -E "^(FAIL|---|ok|panic)" | 
 cp $DEMOFILE $WT/$DEMO
 PKG=./$(dirname $DEMO)
 TESTS=$(grep -oE "^func (Test[A-Za-z0-9_]+)" $DEMOFILE | awk '{print $2}' | paste -sd'|')
-with=$(go test -vet=off -count=1 -run "^($TESTS)\$" $PKG 2>&1 | tail -3)
+with=$(CGO_ENABLED=${RACE:-0} go test ${RACE:+-race} -vet=off -count=1 -run "^($TESTS)\$" $PKG 2>&1 | tail -3)
 echo "$with" | grep -q "^ok" && { echo "$ID: demo PASSES with the change (expected failure)"; exit 1; }
 git apply -R $SRC/patch.diff
-without=$(go test -vet=off -count=1 -run "^($TESTS)\$" $PKG 2>&1 | tail -3)
+without=$(CGO_ENABLED=${RACE:-0} go test ${RACE:+-race} -vet=off -count=1 -run "^($TESTS)\$" $PKG 2>&1 | tail -3)
 echo "$without" | grep -q "^ok" || { echo "$ID: demo FAILS without the change: $without"; exit 1; }
 mkdir -p /verif/seeded/$ID
 cp $SRC/patch.diff /verif/seeded/$ID/patch.diff
